@@ -25,6 +25,9 @@ fn gen(ch: &mut Ch, thorough: bool) -> Option<Case> {
     let entry = *ch.of(entries);
     // quick: full alphabet on the all-five struct slice, reduced alphabet elsewhere
     let reduced = !thorough && !(si == 0 && container == Container::TupleStruct);
+    // {PartialOrd, PartialEq} also with ONE consistent NaN-like partial key (no total by-function exists for it)
+    let style = if derived == [PartialEq, PartialOrd] && ch.pick(2) == 1 { KeyStyle::ConsistentPartial } else { KeyStyle::Consistent };
+    let reduced = reduced && style == KeyStyle::Consistent;
     let mut combo = Combo::PLAIN;
     for t in Tr::ALL {
         let full: &[Arg] = if matches!(t, Ord | PartialOrd) { &Arg::ORD7 } else { &Arg::EQ4 };
@@ -32,9 +35,12 @@ fn gen(ch: &mut Ch, thorough: bool) -> Option<Case> {
         if a != Arg::None && !recognised(t, &derived) {
             return None;
         }
+        if style == KeyStyle::ConsistentPartial && a.by() && t == Ord {
+            return None;
+        }
         combo = combo.with(t, a);
     }
-    let ts = container_spec(container, ctx, FieldSpec::cfg(combo, KeyForm::Method), KeyStyle::Consistent);
+    let ts = container_spec(container, ctx, FieldSpec::cfg(combo, KeyForm::Method), style);
     Some(Case { gen: "laws", vector: ch.vector(), ts, derived, entry })
 }
 
@@ -157,7 +163,7 @@ pub fn run(ctx: &Ctx, rep: &mut Report) {
     rep.rule = "terminal state = (supertrait-closed trait subset, container, entry point, one of the 3136 per-field combinations with ONE consistent key) that the real expander accepts for every requested trait; inner enumeration = all pairs and triples of a 12-15 value domain; distinct by program text; non-trivial = at least one helper attribute and at least 2 distinct outcomes".into();
     rep.assumptions = vec![
         "model-free laws: a==b <=> partial_cmp==Some(Equal) <=> cmp==Equal; partial_cmp==Some(cmp); a==b => equal recorded hash feeds; == symmetric/transitive (reflexive when Eq is derived); cmp antisymmetric under swap and transitive; partial_cmp dual under swap".into(),
-        "all key/by functions express the single key v % 3; combinations the expander refuses are C05's business and only counted here".into(),
+        "all key/by functions express the single key v % 3 (for {PartialOrd, PartialEq} also the single NaN-like partial key: class 2 is incomparable and unequal to everything, itself included); combinations the expander refuses are C05's business and only counted here".into(),
     ];
     let mut cases: Vec<Case> = Vec::new();
     if let Some(p) = &ctx.replay {
